@@ -553,7 +553,7 @@ def call_eager(case):
 
 
 def gen_scan_case(tape: Tape, *, max_n=30, max_groups=5, max_blocks=12, allow_faults=True,
-                  dtypes=("f8", "f8", "f4", "i8", "i4", "b1"), funcs=SCANS, by_dask_p=0.0) -> dict:
+                  dtypes=("f8", "f8", "f4", "i8", "i4", "b1"), funcs=SCANS, by_dask_p=0.0, dtype_kw_p=0.0) -> dict:
     func = tape.choice("gen.func", funcs)
     n = tape.randint("gen.n", 2, max_n)
     ngroups = tape.randint("gen.ngroups", 1, min(max_groups, n))
@@ -578,13 +578,16 @@ def gen_scan_case(tape: Tape, *, max_n=30, max_groups=5, max_blocks=12, allow_fa
     chunks = [gen_chunks(tape, s, "gen.chunks.lead", max_blocks=3) for s in lead]
     chunks.append(gen_chunks(tape, n, max_blocks=max_blocks))
     by_dask = tape.chance("gen.bydask", by_dask_p)
+    skw = {"func": func}
+    if dtype_kw_p and dt.kind == "f" and tape.chance("gen.scan.dtypekw", dtype_kw_p):
+        skw["dtype"] = tape.choice("gen.scan.dtype", ["f8", "f4"])  # the scan runs in the requested float type
     return {
         "kind": "scan",
         "array": enc_array(vals),
         "by": [enc_array(labels)],
         "chunks": chunks,
         "by_dask": bool(by_dask),
-        "kwargs": enc_value({"func": func}),
+        "kwargs": enc_value(skw),
         "knobs": swarm_knobs(tape, len(chunks[-1]), allow_faults=allow_faults),
         "meta": {"pattern": pattern, "label_kind": kind, "ngroups": int(ngroups)},
     }
